@@ -12,11 +12,11 @@ spy(SY, "sync_projects")
 spy(SY, "sync_jobs")
 spy(SY, "_sync_job_workspaces")
 CODE = ["signac.sync.sync_projects / sync_jobs / _sync_job_workspaces / _FileModifyProxy / _DocProxy / DocSync / FileSync", "signac.project.Project.sync / clone / detect_schema", "signac.job.Job.sync"]
-BOUNDS = {"projects": "2 state points; presence of each in src/dst (all 16 combinations; Job.sync needs job0 on both sides)", "files of job0": "f (top level) and sub/g (nested): absent / src only / dst only / identical / different (sizes differ) / different (same size); mtime src older/equal/newer",
+BOUNDS = {"projects": "2 state points; presence of each in src/dst (all 16 combinations; Job.sync needs job0 on both sides)", "file names": "f, sub/g; names on filecmp's default ignore list (tags, sub/CVS); names with braces (a{b}.txt, sub/{})", "files of job0": "f (top level) and sub/g (nested): absent / src only / dst only / identical / different (sizes differ) / different (same size); mtime src older/equal/newer",
           "documents": "7 job-document states (none, one-sided, identical, disjoint incl. nested, flat conflict, nested conflict) x 3 project-document states",
           "options": "file family: selection {None, [id0], [], ()} x strategy {None, always, never, update, custom True/False} x recursive x exclude {None, 'f', 'g'} x entry point {Project.sync, Job.sync}; "
                      "document family: doc_sync {default, ByKey(all), ByKey(regex), update, NO_SYNC, COPY, ByKey(none)} x entry point; check_schema on/off; the two families are crossed with content fully, with each other only in thorough"}
-OUTSIDE = ["symlinks / permission / owner options", "FileSync.Ask", "more than 2 jobs per project", "file names other than f, sub/g"]
+OUTSIDE = ["symlinks / permission / owner options", "FileSync.Ask", "more than 2 jobs per project", "file names other than f, sub/g, tags, sub/CVS, a{b}.txt, sub/{}"]
 STUBS = []
 ASSUMPTIONS = ["tmpfs (/dev/shm) behaves like the user's file system for copy / stat / utime / rename", "paths on which the call raises FileSyncConflict / DocumentSyncConflict / SchemaSyncConflict are 'did not return' (their contract is C14)"]
 
@@ -100,10 +100,13 @@ def _post(src, dst, before_src, before_dst, after_src, after_dst, selected_ids, 
     return problems
 
 
-def _files_case(entry, pres, f, g, mrel, strat, recursive, excl, check_schema, csub=False, sel=0):
-    exclude = [None, "f", "g"][excl]
+FNAMES = [("f", "sub/g"), ("tags", "sub/CVS"), ("a{b}.txt", "sub/{}")]   # 1: names on filecmp's default ignore list; 2: braces (str.format fields)
+
+
+def _files_case(entry, pres, f, g, mrel, strat, recursive, excl, check_schema, csub=False, sel=0, nm=0):
+    exclude = [None, "f", "g", "fg"][excl]     # "fg": a multi-character pattern given as ONE string; it matches no file of the universe
     with SL.Scratch() as sc:
-        src, dst = SL.build(sc.root, pres, f, g, mrel, 0, 0, csub)
+        src, dst = SL.build(sc.root, pres, f, g, mrel, 0, 0, csub, names=FNAMES[nm])
         bs, bd = SL.snap(src.path), SL.snap(dst.path)
         ids = [j.id for j in src]
         if entry == 0:
@@ -128,19 +131,20 @@ def _files_case(entry, pres, f, g, mrel, strat, recursive, excl, check_schema, c
         return "ok", problems
 
 
-def h_files(entry: int, pres: int, f: int, g: int, mrel: int, strat: int, recursive: bool, excl: int, check_schema: bool, csub: bool, sel: int):
-    assert 0 <= entry <= 1 and 0 <= pres < 16 and 0 <= f <= 5 and 0 <= g <= 5 and 0 <= mrel <= 2 and 0 <= strat <= 5 and 0 <= excl <= 2 and part_ok(f * 6 + g)
+def h_files(entry: int, pres: int, f: int, g: int, mrel: int, strat: int, recursive: bool, excl: int, check_schema: bool, csub: bool, sel: int, nm: int):
+    assert 0 <= nm <= 2 and (nm == 0 or (excl == 0 and sel == 0 and not csub and not check_schema and (tier() != "quick" or (strat <= 1 and mrel == 0 and pres in (3, 15)))))
+    assert 0 <= entry <= 1 and 0 <= pres < 16 and 0 <= f <= 5 and 0 <= g <= 5 and 0 <= mrel <= 2 and 0 <= strat <= 5 and 0 <= excl <= 3 and part_ok(f * 6 + g)
     assert pres & 1 and (entry == 0 or pres & 3 == 3)          # job0 exists in the source (and in both for Job.sync)
     assert (f in (4, 5) or g in (4, 5)) or mrel == 0           # the mtime relation only matters for differing files
     assert (entry == 0 or not check_schema)
-    assert tier() != "quick" or (pres in (1, 3, 7, 15) and g in (0, 1, 4) and excl <= 1 and strat in (0, 1, 2, 3))
+    assert tier() != "quick" or (pres in (1, 3, 7, 15) and g in (0, 1, 4) and excl in (0, 1, 3) and strat in (0, 1, 2, 3))
     assert (not csub) or (pres & 3 == 3 and (tier() != "quick" or (g == 1 and strat == 1)))   # common sub-directory: only meaningful when job0 is on both sides
     assert 0 <= sel <= 3 and (sel == 0 or (entry == 0 and (tier() != "quick" or (strat == 1 and excl == 0 and g <= 1 and f <= 1))))
     fresh_path()
-    entry, pres, f, g, mrel, strat, recursive, excl, check_schema, csub = ci(entry, 0, 1), ci(pres, 0, 15), ci(f, 0, 5), ci(g, 0, 5), ci(mrel, 0, 2), ci(strat, 0, 5), cb(recursive), ci(excl, 0, 2), cb(check_schema), cb(csub)
-    sel = ci(sel, 0, 3)
+    entry, pres, f, g, mrel, strat, recursive, excl, check_schema, csub = ci(entry, 0, 1), ci(pres, 0, 15), ci(f, 0, 5), ci(g, 0, 5), ci(mrel, 0, 2), ci(strat, 0, 5), cb(recursive), ci(excl, 0, 3), cb(check_schema), cb(csub)
+    sel, nm = ci(sel, 0, 3), ci(nm, 0, 2)
     with nt():
-        out, problems = _files_case(entry, pres, f, g, mrel, strat, recursive, excl, check_schema, csub, sel)
+        out, problems = _files_case(entry, pres, f, g, mrel, strat, recursive, excl, check_schema, csub, sel, nm)
     if out != "ok" and not (isinstance(out, tuple)):
         discard("sync did not return (conflict): C14")
     reached()
